@@ -55,7 +55,8 @@ instance (c : Code) : Decidable (RCodeOk c) :=
       (∀ ls, c.lines = some ls → ∀ e ∈ ls, e.1 < c.insns.length ∧ e.2 < 65536) ∧
       (∀ vs, c.locals = some vs → vs ≠ [] ∧
         vs = (vs.filter fun v => v.desc.isSome) ++ (vs.filter fun v => v.sig.isSome) ∧ ∀ v ∈ vs, lvOk c.insns.length v) ∧
-      CodeTypeAnnosOk id c.insns.length c.rvta ∧ CodeTypeAnnosOk id c.insns.length c.ritva ∧ c.attrs = [] ∧ codeRefs c < 65535)
+      CodeTypeAnnosOk id c.insns.length c.rvta ∧ CodeTypeAnnosOk id c.insns.length c.ritva ∧
+      (∀ a ∈ c.attrs, a.name ∉ codeAttrNames) ∧ codeRefs c < 65535)
     ⟨fun ⟨a1, a2, a3, a4, a5, a6, a7, a8, a9, a10, a11⟩ => ⟨a1, a2, a3, a4, a5, a6, a7, a8, a9, a10, a11⟩,
      fun h => ⟨h.insns, h.size, h.maxStack, h.maxLocals, h.exceptions, h.lines, h.locals, h.rvta, h.ritva, h.attrs, h.refs⟩⟩
 
